@@ -500,6 +500,9 @@ func (w *world) evaluate(dials []dialRec, otherUDP []dialRec) {
 		if r.resp && r.status == pb.DialResponse_OK && r.dialStatus == pb.DialStatus_OK && r.nonceSeen {
 			o.Probe("honest-flow-ok")
 		}
+		if r.startAt == 0 && r.accepted() {
+			o.Probe("request-accepted-at-time-zero-on-first-contact")
+		}
 		if len(r.plan.entries) >= 50 {
 			o.Probe("long-address-list")
 		}
